@@ -2,6 +2,7 @@ package main
 
 import (
 	"fmt"
+	"go/token"
 	"os"
 	"sort"
 	"strings"
@@ -20,17 +21,17 @@ import (
 //
 // key: <node type>.<field> ; value: required level constant name(s) of js_ast.L
 var c13ChildLevels = map[string][]string{
-	"js_ast.Class.ExtendsOrNil": {"LPostfix"},         // ClassHeritage: extends LeftHandSideExpression — `B++`, `-x`, `a+b`, `await x` need parentheses
-	"js_ast.EAwait.Value":       {"LExponentiation"},  // await UnaryExpression: `await (a ** b)`
+	"js_ast.Class.ExtendsOrNil": {"LPostfix"},                   // ClassHeritage: extends LeftHandSideExpression — `B++`, `-x`, `a+b`, `await x` need parentheses
+	"js_ast.EAwait.Value":       {"LExponentiation"},            // await UnaryExpression: `await (a ** b)`
 	"js_ast.EUnary.Value":       {"LExponentiation", "LPrefix"}, // prefix operators take a UnaryExpression (`-(a ** b)`); postfix update takes a LeftHandSideExpression
-	"js_ast.ESpread.Value":      {"LComma"},           // ...AssignmentExpression
-	"js_ast.EIf.Test":           {"LConditional"},     // ShortCircuitExpression ? … : …
-	"js_ast.ECall.Target":       {"LPostfix"},         // CallExpression: a MemberExpression / CallExpression before the arguments
-	"js_ast.EDot.Target":        {"LPostfix"},         // MemberExpression . IdentifierName
-	"js_ast.EIndex.Target":      {"LPostfix"},         // MemberExpression [ Expression ]
-	"js_ast.SForOf.Value":       {"LComma"},           // for (… of AssignmentExpression)
-	"js_ast.EImportCall.Expr":   {"LComma"},           // import(AssignmentExpression)
-	"js_ast.ENew.Target":        {"LNew"},             // new MemberExpression(...) — a call in the target needs parentheses
+	"js_ast.ESpread.Value":      {"LComma"},                     // ...AssignmentExpression
+	"js_ast.EIf.Test":           {"LConditional"},               // ShortCircuitExpression ? … : …
+	"js_ast.ECall.Target":       {"LPostfix"},                   // CallExpression: a MemberExpression / CallExpression before the arguments
+	"js_ast.EDot.Target":        {"LPostfix"},                   // MemberExpression . IdentifierName
+	"js_ast.EIndex.Target":      {"LPostfix"},                   // MemberExpression [ Expression ]
+	"js_ast.SForOf.Value":       {"LComma"},                     // for (… of AssignmentExpression)
+	"js_ast.EImportCall.Expr":   {"LComma"},                     // import(AssignmentExpression)
+	"js_ast.ENew.Target":        {"LNew"},                       // new MemberExpression(...) — a call in the target needs parentheses
 }
 
 func c13FixedChildLevels(p *Prog) *RuleResult {
@@ -328,6 +329,76 @@ func c06EnumInliningNotOnTargets(p *Prog) *RuleResult {
 		}
 	})
 	if !r.Anchor("direct enum-inlining sites of printExpr", n >= 2) {
+		return r
+	}
+	r.Floor(2)
+	return r
+}
+
+// ---------------------------------------------------------------------------------------------
+// C14/R12 regexp-escape-scan-covers-classes.
+//
+// isUnsupportedRegularExpression scans a regular expression for syntax the target lacks. A Unicode
+// property escape `\p{…}` is such syntax, and it may occur at top level *and* inside a character
+// class (`[\p{L}\d]`). The scanner has two places that consume a backslash escape (one per context);
+// each of them has to look for the property escape before skipping the escaped character. Rule:
+// from every `c == '\\'` test of the function a HasPrefix(…, "p{") test is reached before the scan
+// moves on.
+func c14RegexpEscapeScan(p *Prog) *RuleResult {
+	r := NewRule("C14/R12 regexp-escape-scan-covers-classes", "every place where the regular-expression feature scan consumes a backslash escape first looks for a Unicode property escape (inside character classes too)")
+	fn := p.FindFunc("js_parser.(*parser).isUnsupportedRegularExpression")
+	if !r.Anchor("js_parser.(*parser).isUnsupportedRegularExpression", fn != nil) {
+		return r
+	}
+	loops := naturalLoops(fn)
+	n := 0
+	for _, b := range fn.Blocks {
+		if len(b.Instrs) == 0 || len(b.Succs) != 2 {
+			continue
+		}
+		ifi, ok := b.Instrs[len(b.Instrs)-1].(*ssa.If)
+		if !ok {
+			continue
+		}
+		bo, ok := ifi.Cond.(*ssa.BinOp)
+		if !ok || bo.Op != token.EQL {
+			continue
+		}
+		if k, ok := constInt(bo.Y); !ok || k != '\\' {
+			continue
+		}
+		n++
+		r.Instances++
+		key := fmt.Sprintf("isUnsupportedRegularExpression backslash case #%d", n)
+		found := false
+		seen := map[*ssa.BasicBlock]bool{}
+		work := []*ssa.BasicBlock{b.Succs[0]}
+		for len(work) > 0 && !found {
+			x := work[len(work)-1]
+			work = work[:len(work)-1]
+			if seen[x] {
+				continue
+			}
+			seen[x] = true
+			if _, isHeader := loops[x]; isHeader {
+				continue
+			}
+			for _, in := range x.Instrs {
+				if c, ok := in.(*ssa.Call); ok && calleeFullName(c) == "strings.HasPrefix" && len(c.Call.Args) == 2 {
+					if s, ok := constString(c.Call.Args[1]); ok && (s == "p{" || s == "P{") {
+						found = true
+					}
+				}
+			}
+			work = append(work, x.Succs...)
+		}
+		if found {
+			r.OK(key, true, "looks for p{ / P{ before skipping the escaped character")
+		} else {
+			r.Fail(key, p.Pos(bo.Pos()), "this backslash case skips the escaped character without looking for a Unicode property escape: `/[\\p{L}]/u` is passed through unchanged for a target without property escapes (outside a class the same escape is lowered to `new RegExp(…)` or reported)")
+		}
+	}
+	if !r.Anchor("backslash cases in isUnsupportedRegularExpression", n >= 2) {
 		return r
 	}
 	r.Floor(2)
